@@ -82,6 +82,7 @@ CHECKS = {
         "legs": [
             enum("exhaustive", "TestC04Exhaustive", {"shards": 4}, {"shards": 8}),
             rapid("random", "TestC04Random", {"checks": 50000, "shards": 4}, {"checks": 600000, "shards": 16, "timeout": 6000}),
+            rapid("patched", "TestC04Patched", {"checks": 15000, "shards": 2}, {"checks": 150000, "shards": 8, "timeout": 6000}),
         ],
     },
     "C05": {
@@ -98,6 +99,7 @@ CHECKS = {
         "assumptions": ["flag -> option translation as documented in the README usage text"],
         "legs": [
             rapid("library", "TestC05Library", {"checks": 50000, "shards": 4}, {"checks": 500000, "shards": 16, "timeout": 6000}),
+            rapid("patched", "TestC05Patched", {"checks": 15000, "shards": 2}, {"checks": 150000, "shards": 8, "timeout": 6000}),
             rapid("cli", "TestC05CLI", {"checks": 200, "shards": 6, "shrinktime": "10s"}, {"checks": 2500, "shards": 16, "timeout": 6000}),
         ],
     },
